@@ -12,6 +12,12 @@ UNITS = [
     {"name": "obfs4-frames", "pkg": O4, "kind": "rapid", "run": "^TestVerifC10Obfs4Frames$",
      "quick": {"checks": 250, "shards": 3, "timeout": 300},
      "thorough": {"checks": 2500, "shards": 12, "timeout": 3000}},
+    {"name": "obfs4-frames-while-writing", "pkg": O4, "kind": "rapid", "run": "^TestVerifC10Obfs4FramesWhileWriting$", "common": {"shrinktime": "5s"},
+     "quick": {"checks": 60, "shards": 2, "timeout": 300},
+     "thorough": {"checks": 600, "shards": 8, "timeout": 3000}},
+    {"name": "obfs4-frames-while-writing-race", "pkg": O4, "kind": "rapid", "run": "^TestVerifC10Obfs4FramesWhileWriting$", "common": {"shrinktime": "5s"},
+     "quick": {"checks": 30, "shards": 1, "timeout": 300, "race": True},
+     "thorough": {"checks": 200, "shards": 4, "timeout": 3000, "race": True}},
     {"name": "obfs4-cuts", "pkg": O4, "kind": "plain", "run": "^TestVerifC10Obfs4Cuts$",
      "quick": {"shards": 4, "timeout": 300}, "thorough": {"shards": 16, "timeout": 3000}},
     {"name": "obfs4-handshake-memory", "pkg": O4, "kind": "plain", "run": "^TestVerifC10Obfs4HandshakeMemory$",
